@@ -98,7 +98,7 @@ def merge(results):
     m = {'counters': collections.Counter(), 'classes': collections.Counter(),
          'distinct': set(), 'distinct_extra': 0, 'violations': [], 'n_violations': 0,
          'samples': [], 'notes': collections.Counter(), 'refusals': collections.Counter(),
-         'errors': [], 'flowcal_file': None}
+         'errors': [], 'flowcal_file': None, 'reach': collections.Counter()}
     for r in results:
         m['counters'].update(r['counters'])
         m['classes'].update(r['classes'])
@@ -110,6 +110,7 @@ def merge(results):
             m['samples'].extend(r['samples'][:2])
         m['notes'].update(r['notes'])
         m['refusals'].update(r['refusals'])
+        m['reach'].update(r.get('reach', {}))
         if r.get('status') != 'ok':
             m['errors'].append('shard %s: %s' % (r.get('shard'), r.get('error', '?')))
         m['flowcal_file'] = r.get('flowcal_file') or m['flowcal_file']
@@ -175,6 +176,10 @@ def main(argv=None):
     if only is None and m['counters']['checks'] < min_checks:
         inconclusive.append('deciding monitors evaluated %d times (< floor %d)'
                             % (m['counters']['checks'], min_checks))
+    anchors = getattr(mod, 'ANCHORS', [])
+    for a in anchors:
+        if only is None and not any(k == a or k.endswith(':' + a) or k.endswith('.' + a) for k in m['reach']):
+            inconclusive.append('anchored function %r was never entered' % a)
     for name in getattr(mod, 'REQUIRED_COUNTERS', []):
         if only is None and m['counters'][name] == 0:
             inconclusive.append('required monitor %r never evaluated' % name)
@@ -200,6 +205,10 @@ def main(argv=None):
                          if not k.startswith(('chk:', 'viol:', 'kept:'))},
             'observations': dict(m['notes']),
             'refusals_observed': dict(m['refusals']),
+            'reach': {'note': 'entries of repository functions during this run (counting stops at 500 per function and shard)',
+                      'anchored': {a: int(sum(n for k, n in m['reach'].items() if k == a or k.endswith(':' + a) or k.endswith('.' + a))) for a in anchors},
+                      'functions_entered': len(m['reach']),
+                      'top': dict(sorted(m['reach'].items(), key=lambda kv: -kv[1])[:25])},
             'known_findings_hit': dict(hit),
             'violations_by_mechanism': viol_mech,
             'inconclusive': inconclusive,
